@@ -38,17 +38,56 @@ Definition view_eqb (a b : client_obs Z aexn) : bool :=
 (* one case: the input (mode, initial total, calls), which variant of the submission the
    implementation currently shows (probed by the harness), and the implementation's
    observations of the batch run and of the one-by-one run on an identical object *)
-Record case := { k_oneway : bool; k_submit_broken : bool; k_s0 : Z; k_calls : list acall;
+Record case1 := { k_oneway : bool; k_submit_broken : bool; k_s0 : Z; k_calls : list acall;
                  k_b_state : Z; k_b_log : list acall; k_b_view : client_obs Z aexn;
                  k_q_state : Z; k_q_log : list acall; k_q_outs : list (outcome Z aexn) }.
 
-Definition model_batch (c : case) : batch_run Z acall Z aexn :=
+Definition model_batch (c : case1) : batch_run Z acall Z aexn :=
   if k_submit_broken c then run_batch_submit_fails ESubmit (k_calls c) (k_s0 c)
   else acc_batch loop_breaks (k_oneway c) (k_calls c) (k_s0 c).
-Definition model_seq (c : case) : run Z acall Z aexn := acc_seq (k_calls c) (k_s0 c).
+Definition model_seq (c : case1) : run Z acall Z aexn := acc_seq (k_calls c) (k_s0 c).
 
-Definition check_case (c : case) : bool :=
+Definition check_one (c : case1) : bool :=
   let b := model_batch c in
   let q := model_seq c in
   (b_state b =? k_b_state c) && list_eqb acall_eqb (b_log b) (k_b_log c) && view_eqb (b_obs b) (k_b_view c)
   && (r_state q =? k_q_state c) && list_eqb acall_eqb (r_log q) (k_q_log c) && list_eqb out_eqb (r_outs q) (k_q_outs c).
+
+(* ---- histories of a re-used BatchProxy ----
+   per event the implementation's observation: nothing for a queued call; for a submission the
+   object's total afterwards, the calls executed during it and what the submitting call did
+   (returned nothing / raised e / returned a generator); for a pull the items obtained *)
+Inductive skind := KNothing | KRaised (e : aexn) | KGen.
+Inductive hobs := OQ | OS (st : Z) (log : list acall) (k : skind) | OI (outs : list (outcome Z aexn)).
+Record hcase := { h_keep : bool;      (* probed: does the queue survive a submission that raised? *)
+                  h_s0 : Z; h_events : list (event acall); h_obs : list hobs; h_final : Z }.
+
+Definition kind_of (o : client_obs Z aexn) : skind :=
+  match o with CNothing => KNothing | CRaised e => KRaised e | CStream _ => KGen end.
+Definition skind_eqb (a b : skind) : bool :=
+  match a, b with
+  | KNothing, KNothing | KGen, KGen => true
+  | KRaised e, KRaised e' => aexn_eqb e e'
+  | _, _ => false
+  end.
+Definition hobs_eqb (m : hitem Z acall Z aexn) (o : hobs) : bool :=
+  match m, o with
+  | HQueued, OQ => true
+  | HSub _ b, OS st log k => (b_state b =? st) && list_eqb acall_eqb (b_log b) log && skind_eqb (kind_of (b_obs b)) k
+  | HIter outs, OI outs' => list_eqb out_eqb outs outs'
+  | _, _ => false
+  end.
+Fixpoint trace_eqb (t : list (hitem Z acall Z aexn)) (o : list hobs) : bool :=
+  match t, o with
+  | [], [] => true
+  | x :: t', y :: o' => hobs_eqb x y && trace_eqb t' o'
+  | _, _ => false
+  end.
+Definition model_history (c : hcase) := acc_history loop_breaks (h_keep c) (h_events c) (h_s0 c) [] [].
+Definition check_hist (c : hcase) : bool :=
+  let '(t, s) := model_history c in
+  trace_eqb t (h_obs c) && (s =? h_final c).
+
+Inductive case := One (c : case1) | Hist (c : hcase).
+Definition check_case (c : case) : bool :=
+  match c with One c => check_one c | Hist c => check_hist c end.
